@@ -1,30 +1,9 @@
 (* C15 proofs. *)
 From Coq Require Import List Bool Arith String Lia.
-From C15 Require Import Gen Model.
+From C15 Require Import Gen Model Facts.
 Import ListNotations.
 
 (* ------------------------------------------------------------------ (T) the scraped facts are the ones the model is written against *)
-Definition generator_facts : Prop :=
-  gen_breakflow_tags = ["Return"; "In"; "Break"; "Continue"; "Fallthrough"]%string /\
-  gen_close_loop = ("#deferblocks", "1", "-1")%string /\
-  gen_close_guarded_by_closing = true /\
-  gen_upscopes_closes_current_first = true /\
-  gen_upscopes_walks_parents_until_top = true /\
-  gen_block_order = ["stats"; "repeat_stop"; "close"]%string /\
-  gen_block_close_unless_breakflow = true /\
-  gen_return_value_saved_before_cleanup = true /\
-  gen_return_closes_up_to_function_scope = true /\
-  gen_in_value_assigned_before_cleanup = true /\
-  gen_continue_stop_then_cleanup_then_continue = true /\
-  gen_break_cleanup_before_jump = true /\
-  gen_defer_registers_on_current_scope = true /\
-  gen_defer_blocks_appended = true /\
-  gen_fallthrough_closes_scope = true /\
-  gen_block_resets_deferblocks = true /\
-  gen_close_defers_in_declaration_order = true /\
-  gen_jump_out_of_defer_rejected = true /\
-  gen_in_goto_omitted_only_for_last_statement_of_doexpr_block = true.
-
 Lemma generator_facts_hold : generator_facts.
 Proof. unfold generator_facts. repeat split; vm_compute; reflexivity. Qed.
 
@@ -36,13 +15,7 @@ Scheme stmt_mind := Induction for stmt Sort Prop
 Combined Scheme sbc_mutind from stmt_mind, block_mind, cases_mind.
 
 (* ------------------------------------------------------------------ well-formedness (placement rules) *)
-Fixpoint no_direct_defer (b:block) : bool :=
-  match b with
-  | BNil => true
-  | BCons (Defer _ _) _ => false
-  | BCons (Close _) _ => false
-  | BCons _ r => no_direct_defer r
-  end.
+
 
 (* L: inside a loop of the same function (break/continue allowed); D: inside a do-expression (`in` allowed);
    F: `return` allowed (not inside a deferred block); N: inside a deferred block (no nested defer).
@@ -1057,57 +1030,7 @@ Proof.
 Qed.
 
 (* ================================================================== source-level well-formedness *)
-Fixpoint list_nat_eqb (a b:list nat) : bool :=
-  match a, b with
-  | [], [] => true
-  | x :: r, y :: r' => Nat.eqb x y && list_nat_eqb r r'
-  | _, _ => false
-  end.
 
-Lemma list_nat_eqb_eq : forall a b, list_nat_eqb a b = true -> a = b.
-Proof.
-  induction a as [|x r IH]; destruct b as [|y r']; simpl; intro H; try discriminate; [reflexivity|].
-  apply andb_true_iff in H as [H1 H2]. apply Nat.eqb_eq in H1. subst. f_equal. apply IH; assumption.
-Qed.
-
-(* the types of the <close> variables of one declaration get resolved in declaration order *)
-Definition close_in_order (ks:list (nat * bool)) : bool := list_nat_eqb (close_order ks) (map fst ks).
-
-(* at most one <close> declaration with late-typed variables directly in a block (a second one would be
-   injected through a stale closeindex, which the model does not describe) *)
-Definition stmt_has_late (s:stmt) : bool := match s with Close ks => existsb snd ks | _ => false end.
-Fixpoint block_has_late (b:block) : bool :=
-  match b with BNil => false | BCons s r => stmt_has_late s || block_has_late r end.
-
-Fixpoint wf_stmt (L D F N:bool) (s:stmt) {struct s} : bool :=
-  match s with
-  | Emit _ => true
-  | Defer _ b => wf_block false false false N b
-  | Close _ => true
-  | Do b => wf_block L D F N b
-  | If _ t e => wf_block L D F N t && wf_block L D F N e
-  | While _ b => wf_block true D F N b
-  | Repeat b _ => wf_block true D F N b
-  | For _ b => wf_block true D F N b
-  | Switch _ cs d => wf_cases L D F N cs && wf_block L D F N d
-  | DoExpr b => wf_block L true F N b
-  | In _ => D
-  | Break | Continue => L
-  | Return _ | ReturnVoid => F
-  | FnCall _ b => wf_block false false true false b
-  end
-with wf_block (L D F N:bool) (b:block) {struct b} : bool :=
-  match b with
-  | BNil => true
-  | BCons s r => wf_stmt L D F N s && wf_block L D F N r
-  end
-with wf_cases (L D F N:bool) (cs:cases) {struct cs} : bool :=
-  match cs with
-  | CNil => true
-  | CCons b ft r => wf_block L D F N b && wf_cases L D F N r
-  end.
-
-Definition wf_prog (p:prog) : bool := wf_block false false true false (snd p).
 
 Lemma desugar_sem :
   (forall s, (forall L D F N, wf_stmt L D F N s = true -> forall lp x, rstmt lp (desugar_stmt s) x = rstmt lp s x) /\
@@ -1165,11 +1088,7 @@ Proof.
     apply (IHr L D F N Hr).
 Qed.
 
-Lemma no_direct_defer_desugar : forall b, no_direct_defer b = true -> no_direct_defer (desugar_block b) = true.
-Proof.
-  induction b as [|s r IH]; intro H; [reflexivity|].
-  destruct s; simpl in *; try discriminate; auto.
-Qed.
+
 
 Lemma wfd_close_defers : forall L D F N ks rest,
   wfd_block L D F N rest = true -> wfd_block L D F N (close_defers ks rest) = true.
@@ -1210,11 +1129,6 @@ Proof.
   destruct (rstmts None body [] None x) as [o x1].
   destruct o; reflexivity.
 Qed.
-
-(* [wf_prog] is exactly what the repaired analyzer accepts of the mini-language: break/continue inside a loop
-   of the same function, `in` inside a do-expression, and none of return/break/continue/in leaving a
-   defer block (check_jump_out_of_defer) *)
-Definition accepted (p:prog) : bool := wf_prog p.
 
 Theorem defer_compile_correct : forall p x, accepted p = true -> tgt_sem (compile p) x = ref_sem p x.
 Proof. exact defer_compile_correct_partial. Qed.
